@@ -9,6 +9,7 @@ from vpm.build import build_mdp
 from vpm.ref.mdp import RefMDP
 
 PROPERTY_ID = "C10"
+FUZZ = {"props": ["td"], "quick": [2, 800], "thorough": [8, 30000]}
 RULE = ("Episodic MDP specs (every policy reaches an explicitly absorbing state w.p. 1; gamma<1 or =1; "
         "state-dependent action sets, stochastic transitions, rewards of either sign, absorbing initial states) x "
         "learner in {Q, SARSA, expected SARSA, double Q} x step size in {0,.1,.25,.5,1} x exploration rate x softmax "
